@@ -470,6 +470,16 @@ class IMAPClientCommand:
         Awaits the `ready` event. No matter what happens, we set the
         command to be completed before exiting.
         """
+        # A `\Noselect` mailbox (deleted, but kept as a placeholder for its
+        # inferior mailboxes or subscription) has no management task, so
+        # nothing would ever tell this command it is ready.
+        #
+        if r"\Noselect" in mbox.attributes:
+            from .mbox import NoSuchMailbox
+
+            self.completed = True
+            raise NoSuchMailbox(f"Mailbox '{mbox.name}' is not selectable")
+
         try:
             mbox.task_queue.put_nowait(self)
             await self.ready.wait()
